@@ -628,4 +628,72 @@ impl Family for PageFamily {
     fn run(&self, prop: &str, case: &Case, ctx: &mut CaseCtx) -> Result<(), Violation> {
         run_case(prop, case, ctx)
     }
+    fn decode(&self, prop: &str, u: &mut arbitrary::Unstructured) -> Option<Case> {
+        Some(decode_case(prop, u))
+    }
+}
+
+// ---------------------------------------------------------------- byte decoder (fuzz front-end)
+
+/// the fixed page limits both limit strategies share, with their weights
+fn d_fixed_limit(sel: usize) -> Option<u32> {
+    match sel {
+        0..=4 => None,
+        5 | 6 => Some(1),
+        7 | 8 => Some(2),
+        9 | 10 => Some(3),
+        11 | 12 => Some(7),
+        13 | 14 => Some(10),
+        15 | 16 => Some(29),
+        17..=19 => Some(30),
+        20..=22 => Some(31),
+        23 => Some(100),
+        _ => Some(u32::MAX),
+    }
+}
+
+/// Byte decoder for C20 cases (quick-tier sizes: at most 70 candidates). One byte per choice,
+/// the same value sets and weights as `case_strategy`: listing, n (page-boundary values
+/// preferred), 0..=3 runs, limit, mid cursor, mid limit (never 0), variant.
+pub fn decode_case(_prop: &str, u: &mut arbitrary::Unstructured) -> Case {
+    use vcore::amounts::{arb_below, arb_bool};
+    let listing = LISTINGS[arb_below(u, LISTINGS.len())];
+    let n: u16 = match arb_below(u, 28) {
+        0 => 0,
+        1 => 1,
+        2 => 9,
+        3 | 4 => 10,
+        5 | 6 => 11,
+        7 | 8 => 29,
+        9..=11 => 30,
+        12..=14 => 31,
+        15..=17 => 61,
+        18..=26 => 32 + arb_below(u, 39) as u16,
+        _ => 2 + arb_below(u, 30) as u16,
+    };
+    let n_runs = arb_below(u, 4);
+    let mut deletions = vec![];
+    for _ in 0..n_runs {
+        let start: u16 = u.arbitrary().unwrap_or(0);
+        let len = match arb_below(u, 12) {
+            0..=5 => 1 + arb_below(u, 3) as u8,
+            6 | 7 => 4 + arb_below(u, 8) as u8,
+            8..=10 => 11 + arb_below(u, 25) as u8,
+            _ => 31 + arb_below(u, 39) as u8,
+        };
+        deletions.push(Run { start, len, expire: arb_bool(u, 3, 5) });
+    }
+    let limit = match arb_below(u, 29) {
+        s @ 0..=24 => d_fixed_limit(s),
+        25 | 26 => Some(1 + arb_below(u, 44) as u32),
+        27 => Some(0),
+        _ => Some(u.arbitrary::<u32>().unwrap_or(0)),
+    };
+    let mid_cursor: u16 = u.arbitrary().unwrap_or(0);
+    let mid_limit = match arb_below(u, 27) {
+        s @ 0..=24 => d_fixed_limit(s),
+        _ => Some(1 + arb_below(u, 44) as u32),
+    };
+    let variant: u8 = u.arbitrary().unwrap_or(0);
+    Case { listing, n, deletions, limit, mid_cursor, mid_limit, variant }
 }
